@@ -75,6 +75,9 @@ pub enum Op {
 
 #[derive(Clone, Debug, Serialize, Deserialize, PartialEq)]
 pub struct StoreCase {
+    /// samples given as paired read files (sample index -> forward, reverse FASTQ) instead of FASTA
+    #[serde(default, skip_serializing_if = "BTreeMap::is_empty")]
+    pub fastq: BTreeMap<usize, (String, String)>,
     pub focus: String,
     pub samples: Vec<Sample>,
     /// further input files: name -> content (weed sequences, references)
@@ -260,8 +263,19 @@ impl<'a> Exec<'a> {
             a.push("--threads".into());
             a.push(threads.to_string());
         }
-        if list && !idx.iter().any(|i| self.c.samples[*i].name.contains(char::is_whitespace)) {
-            let l: String = idx.iter().map(|i| format!("{}\t{}\n", self.c.samples[*i].name, self.c.samples[*i].file())).collect();
+        let any_fastq = idx.iter().any(|i| self.c.fastq.contains_key(i));
+        if (list || any_fastq) && !idx.iter().any(|i| self.c.samples[*i].name.contains(char::is_whitespace)) {
+            let l: String = idx
+                .iter()
+                .map(|i| {
+                    let s = &self.c.samples[*i];
+                    if self.c.fastq.contains_key(i) {
+                        format!("{}\t{}_1.fastq\t{}_2.fastq\n", s.name, s.name, s.name)
+                    } else {
+                        format!("{}\t{}\n", s.name, s.file())
+                    }
+                })
+                .collect();
             let lname = format!("{out}.list");
             self.dir.write(&lname, l.as_bytes());
             a.push("-f".into());
@@ -436,7 +450,7 @@ impl<'a> Exec<'a> {
                     tabs.push(self.model(i)?.table.clone());
                 }
                 let all_names: Vec<&String> = tabs.iter().flat_map(|t| t.names.iter()).collect();
-                if all_names.iter().collect::<BTreeSet<_>>().len() != all_names.len() {
+                if self.c.focus != "C07" && all_names.iter().collect::<BTreeSet<_>>().len() != all_names.len() {
                     return Err(Stop::Invalid("duplicate sample names across inputs".into()));
                 }
                 let expected = Table::merge(&tabs.iter().collect::<Vec<_>>());
@@ -988,12 +1002,38 @@ impl StoreWorkload {
             if n == 3 {
                 ops.push(Op::Distance { file: "b1".into(), min_count: 2, pct: None, allow_ambig: false, threads: 3 });
             }
-            return StoreCase { focus: focus.to_string(), samples, extra: BTreeMap::new(), ops, sim_seed: rng.next_u64() >> 1 };
+            return StoreCase { fastq: BTreeMap::new(), focus: focus.to_string(), samples, extra: BTreeMap::new(), ops, sim_seed: rng.next_u64() >> 1 };
         }
         let fits64 = k >= 35 && matches!(focus, "C07" | "C10") && rng.chance(25);
         let mut samples = if fits64 { gen_fits64_samples(&mut rng, n, k, "s") } else { gen_samples(&mut rng, n, k, &o, "s") };
         if !fits64 && rng.chance(30) {
             crate::gen::vary_paths(&mut rng, &mut samples);
+        }
+        let mut fastq: BTreeMap<usize, (String, String)> = BTreeMap::new();
+        if focus == "C07" && !fits64 && rng.chance(10) {
+            // one or two samples come as paired reads; builds then go through a mixed file list
+            for _ in 0..rng.range(1, 2) {
+                let i = rng.below(n);
+                if samples[i].path.is_none() && !samples[i].name.contains(char::is_whitespace) {
+                    let g: Vec<u8> = samples[i].records.iter().flat_map(|r| r.1.clone()).filter(|b| *b != b'N').collect();
+                    if g.len() > 3 * k {
+                        fastq.insert(i, crate::gen::simulate_reads(&mut rng, &g, 30, (2 * k + 10).max(60)));
+                    }
+                }
+            }
+        }
+        let mut dup_names = false;
+        if focus == "C07" && n >= 2 && rng.chance(12) {
+            // two different files whose names collide once directory and extension are stripped
+            // (runA/sample.fa, runB/sample.fa): ska allows equal sample names
+            let i = rng.below(n);
+            let j = (i + 1 + rng.below(n - 1)) % n;
+            if !samples[i].name.contains(".fa") && !samples[j].name.contains(".fa") {
+                samples[j].name = samples[i].name.clone();
+                samples[i].path = Some(format!("runA/{}.fa", samples[i].name));
+                samples[j].path = Some(format!("runB/{}.{}", samples[j].name, if rng.chance(50) { "fa" } else { "fasta" }));
+                dup_names = true;
+            }
         }
         if focus == "C08" && rng.chance(25) {
             // unusual but legal sample names (they come from file names when building from
@@ -1076,7 +1116,7 @@ impl StoreWorkload {
         match focus {
             "C07" => {
                 // sometimes one input is not freshly built but the result of a delete
-                if rng.chance(25) {
+                if !dup_names && rng.chance(25) {
                     let cand: Vec<String> = files.iter().filter(|(_, v)| v.len() >= 2).map(|(k, _)| k.clone()).collect();
                     if let Some(f) = cand.first() {
                         let names = files[f].clone();
@@ -1355,7 +1395,7 @@ impl StoreWorkload {
                 }
             }
         }
-        StoreCase { focus: focus.to_string(), samples, extra, ops, sim_seed: rng.next_u64() >> 1 }
+        StoreCase { fastq, focus: focus.to_string(), samples, extra, ops, sim_seed: rng.next_u64() >> 1 }
     }
 }
 
@@ -1394,6 +1434,12 @@ impl Workload for StoreWorkload {
         }
         for (n, d) in &c.extra {
             ctx.dir.write(n, d.as_bytes());
+        }
+        for (i, (f, r)) in &c.fastq {
+            if let Some(smp) = c.samples.get(*i) {
+                ctx.dir.write(&format!("{}_1.fastq", smp.name), f.as_bytes());
+                ctx.dir.write(&format!("{}_2.fastq", smp.name), r.as_bytes());
+            }
         }
         let _ = std::fs::create_dir_all(ctx.dir.p("o"));
         let mut ex = Exec { dir: &ctx.dir, c, log: vec![format!("store case focus={} samples={} ops={}", c.focus, c.samples.len(), c.ops.len())], nproc: 0, store: BTreeMap::new(), weed_sets: BTreeMap::new() };
